@@ -99,3 +99,23 @@ def replay(pid, path, oracle):
     hit = [m for m in mism if m["site"] == d.get("site") and m["aspect"] == d.get("aspect")]
     print("still failing on the real package:" if hit else "no longer failing", hit)
     return 1 if hit else 0
+
+
+def sliced_all(hdr: str, prefix: str, xs: str, pred: str, n: int, total: int, final_name: str):
+    """Lean modules proving `xs.all pred = true` by per-slice `decide +kernel` in parallel files.
+    Returns (layer_modules [(name, text)], text_of_final_lemma, import_lines)."""
+    N = max(1, (total + n - 1) // n)
+    layer = []
+    for k in range(N):
+        layer.append((f"{prefix}{k}", hdr + f"theorem {prefix}_{k} : (slice ({xs}) {k} {n}).all ({pred}) = true := by decide +kernel\n"))
+    cases = "\n".join(f"    | {k}, _ => exact {prefix}_{k}" for k in range(N))
+    lemma = f"""theorem {prefix}_len : ({xs}).length = {total} := by decide +kernel
+theorem {final_name} : ({xs}).all ({pred}) = true := by
+  apply all_of_slices _ _ {n} {N} (by decide) (by rw [{prefix}_len]; decide)
+  intro k hk
+  match k, hk with
+{cases}
+    | j + {N}, h => omega
+"""
+    imports = "".join(f"import {m}\n" for m, _ in layer)
+    return layer, lemma, imports
